@@ -5,10 +5,20 @@ use super::model::*;
 
 pub const TPARAM_NAMES: [&str; 4] = ["T", "U", "V", "W"];
 
+/// an identifier occurrence of a local variable in the rendered text
+#[derive(Clone, Debug)]
+pub struct Mark {
+    pub start: usize,
+    pub end: usize,
+    pub var: VarId,
+    pub binder: bool,
+}
+
 pub struct Renderer<'a> {
     pub p: &'a GProg,
     out: String,
     indent: usize,
+    pub marks: Vec<Mark>,
 }
 
 pub fn render_ty(p: &GProg, t: &Ty) -> String {
@@ -78,6 +88,7 @@ impl<'a> Renderer<'a> {
             p,
             out: String::new(),
             indent: 0,
+            marks: vec![],
         }
     }
 
@@ -92,7 +103,29 @@ impl<'a> Renderer<'a> {
         &self.p.vars[v as usize].spelling
     }
 
+    fn emit_var(&mut self, v: VarId, binder: bool) {
+        let s = self.p.vars[v as usize].spelling.clone();
+        let start = self.out.len();
+        self.out.push_str(&s);
+        self.marks.push(Mark {
+            start,
+            end: self.out.len(),
+            var: v,
+            binder,
+        });
+    }
+
     pub fn program(mut self) -> String {
+        self.program_mut();
+        self.out
+    }
+
+    pub fn program_with_marks(mut self) -> (String, Vec<Mark>) {
+        self.program_mut();
+        (self.out, self.marks)
+    }
+
+    fn program_mut(&mut self) {
         for a in &self.p.adts {
             let tps = if a.tparams > 0 {
                 format!(
@@ -131,7 +164,6 @@ impl<'a> Renderer<'a> {
             self.func(f);
             self.out.push('\n');
         }
-        self.out
     }
 
     fn func(&mut self, f: &FnDef) {
@@ -143,13 +175,16 @@ impl<'a> Renderer<'a> {
         } else {
             String::new()
         };
-        let params = f
-            .params
-            .iter()
-            .map(|(v, t)| format!("{}: {}", self.var(*v), render_ty(self.p, t)))
-            .collect::<Vec<_>>()
-            .join(", ");
-        self.out.push_str(&format!("fn {}{}({})", f.name, tps, params));
+        self.out.push_str(&format!("fn {}{}(", f.name, tps));
+        for (i, (v, t)) in f.params.iter().enumerate() {
+            if i > 0 {
+                self.out.push_str(", ");
+            }
+            self.emit_var(*v, true);
+            self.out.push_str(": ");
+            self.out.push_str(&render_ty(self.p, t));
+        }
+        self.out.push(')');
         if f.ret != Ty::Unit || f.name != "main" {
             self.out.push_str(&format!(" -> {}", render_ty(self.p, &f.ret)));
         }
@@ -209,10 +244,7 @@ impl<'a> Renderer<'a> {
     pub fn pat(&mut self, p: &Pat) {
         match p {
             Pat::Wild => self.out.push('_'),
-            Pat::Var(v) => {
-                let s = self.var(*v).to_string();
-                self.out.push_str(&s)
-            }
+            Pat::Var(v) => self.emit_var(*v, true),
             Pat::Unit => self.out.push_str("()"),
             Pat::Bool(b) => self.out.push_str(if *b { "true" } else { "false" }),
             Pat::Int(k, v) => {
@@ -308,10 +340,7 @@ impl<'a> Renderer<'a> {
                 }
             }
             Expr::Str(s) => self.out.push_str(&escape_str(s)),
-            Expr::Var(v) => {
-                let s = self.var(*v).to_string();
-                self.out.push_str(&s)
-            }
+            Expr::Var(v) => self.emit_var(*v, false),
             Expr::FnRef(f) => self.out.push_str(&self.p.fns[*f].name.clone()),
             Expr::Un(op, a) => {
                 let paren = ctx > P_UNARY;
@@ -431,8 +460,7 @@ impl<'a> Renderer<'a> {
                     if i > 0 {
                         self.out.push_str(", ");
                     }
-                    let s = self.var(*v).to_string();
-                    self.out.push_str(&s);
+                    self.emit_var(*v, true);
                     self.out.push_str(": ");
                     self.out.push_str(&render_ty(self.p, t));
                 }
@@ -517,4 +545,8 @@ impl<'a> Renderer<'a> {
 
 pub fn render(p: &GProg) -> String {
     Renderer::new(p).program()
+}
+
+pub fn render_with_marks(p: &GProg) -> (String, Vec<Mark>) {
+    Renderer::new(p).program_with_marks()
 }
